@@ -382,6 +382,21 @@ def _simple_arg(e):
     return False
 
 
+def _timeless_default(e):
+    """A default-argument expression that denotes the same object whether it is evaluated once (when the ``def`` runs) or
+    at every call: constants, names / dotted names (references to existing objects), signed numbers, tuples of such, and
+    lambdas (stateless).  Calls, displays of mutable containers, comprehensions, subscripts, operators are not."""
+    if isinstance(e, (ast.Constant, ast.Name, ast.Lambda)):
+        return True
+    if isinstance(e, ast.Attribute):
+        return _simple_arg(e)
+    if isinstance(e, ast.UnaryOp) and isinstance(e.op, (ast.USub, ast.UAdd, ast.Not)):
+        return isinstance(e.operand, ast.Constant)
+    if isinstance(e, ast.Tuple):
+        return all(_timeless_default(x) for x in e.elts)
+    return False
+
+
 def _stored_names(stmts):
     out = set()
     for s in stmts:
@@ -870,6 +885,10 @@ class Inliner(object):
             if p not in binding:
                 if p not in defaults:
                     raise CannotInline('unbound parameter %s' % p)
+                if not _timeless_default(defaults[p]):
+                    # ``def f(key=os.urandom(20))`` / ``def f(acc=[])``: the default is ONE value, computed when the function
+                    # is defined; writing the expression at the call site would compute a new one per call
+                    raise CannotInline('default of %s is evaluated once, at definition time' % p)
                 binding[p] = defaults[p]
         body = [s for s in fn.body]
         if body and isinstance(body[0], ast.Expr) and isinstance(body[0].value, ast.Constant) and isinstance(body[0].value.value, str):
